@@ -135,9 +135,13 @@ def newMethodOf (m : Method) (status : Nat) : Option Method :=
 def keepAuthHeader (sameHost : Bool) (orig target : Uri) : Bool :=
   sameHost && (orig.host == target.host && (orig.scheme == target.scheme || target.scheme == "https"))
 
+/-- flow.rs as_new_flow (after the repair D13): a `Host` header of the original request stays with the request
+    only while the target is on the host of the ORIGINAL request URI -/
+def keepHostHeader (orig target : Uri) : Bool := orig.host == target.host
+
 /-- names suppressed among the inherited headers of the new request -/
-def unsetList (keepAuth : Bool) : List String :=
-  (if keepAuth then [] else ["authorization"]) ++ ["cookie", "content-length"]
+def unsetList (keepAuth keepHost : Bool) : List String :=
+  (if keepAuth then [] else ["authorization"]) ++ ((if keepHost then [] else ["host"]) ++ ["cookie", "content-length"])
 
 /-- the flow `as_new_flow` builds: the original request with a new method, rebuilt by `Flow::new`, then the
     target URI installed as override and the suppression list set -/
@@ -145,7 +149,7 @@ def followFlow (prev : AReq) (nm : Method) (uri : Uri) (sameHost : Bool) : Flow 
   { (Flow.new nm prev.version prev.uri prev.orig) with
     call := { (Flow.new nm prev.version prev.uri prev.orig).call with
       req := { (Flow.new nm prev.version prev.uri prev.orig).call.req with
-        uriOverride := some uri, unset := unsetList (keepAuthHeader sameHost prev.uri uri) } } }
+        uriOverride := some uri, unset := unsetList (keepAuthHeader sameHost prev.uri uri) (keepHostHeader prev.uri uri) } } }
 
 /-- flow.rs Flow<Redirect>::as_new_flow -/
 def Flow.asNewFlow (f : Flow) (sameHost : Bool) : Flow × FollowRes :=
